@@ -19,6 +19,7 @@ type Val struct {
 	Lit  bool  // untyped numeric literal
 	GoT  types.Type
 	Loc  types.Object // address of this local variable (pointer-to-local)
+	LocHeap *heapBase // address of a scalar / pointer field of an object (&g.extra)
 	Mag  float64      // log2 bound on magnitude for exact-mode floats; <0 unknown
 	Fn   *ast.FuncLit // closure literal
 	FnObj types.Object // func-typed parameter (callback)
@@ -633,6 +634,11 @@ func (ex *Exec) addrOf(st *State, e ast.Expr) *Val {
 			v := ex.eval(st, x)
 			return tv(v.T, types.NewPointer(t))
 		}
+		// &x.f with f a scalar / pointer field: a cell inside the object
+		if hb, rest, ok := ex.heapLoc(st, x); ok && len(rest) == 0 {
+			b := hb
+			return &Val{LocHeap: &b, T: intLit(1), GoT: types.NewPointer(ex.info.TypeOf(x)), Mag: -1}
+		}
 	case *ast.IndexExpr:
 		if t := ex.info.TypeOf(x); ex.w.isRefStruct(t) {
 			v := ex.eval(st, x)
@@ -661,6 +667,9 @@ func (ex *Exec) addrOf(st *State, e ast.Expr) *Val {
 func (ex *Exec) deref(st *State, p *Val, at ast.Node) *Val {
 	if p.Loc != nil {
 		return ex.lookupVar(st, p.Loc)
+	}
+	if p.LocHeap != nil {
+		return ex.fieldVal(st, p.LocHeap.ref, p.LocHeap.owner, p.LocHeap.field)
 	}
 	pt, ok := p.GoT.Underlying().(*types.Pointer)
 	if !ok {
@@ -750,6 +759,16 @@ func (ex *Exec) selectPath(st *State, base *Val, bt types.Type, path []int, at a
 			panic(unsupported("select on " + ct.String()))
 		}
 		f := stt.Field(idx)
+		if cur.T.S.Kind == KUnint {
+			// field of an opaque value of a dependency's struct type: an uninterpreted function of the value
+			r := tv(mk("fld_"+cur.T.S.Name+"_"+f.Name(), ex.w.sortOf(f.Type()), cur.T), f.Type())
+			if isIntType(f.Type()) {
+				ex.assume(st, ex.intRange(r.T, f.Type()))
+			}
+			cur = r
+			ct = f.Type()
+			continue
+		}
 		m := cur.Mag
 		cur = tv(tField(cur.T, f.Name()), f.Type())
 		if isFloat(f.Type()) {
@@ -895,6 +914,12 @@ func (ex *Exec) evalComposite(st *State, e *ast.CompositeLit) *Val {
 	t := ex.info.TypeOf(e)
 	switch u := t.Underlying().(type) {
 	case *types.Struct:
+		if isExternalNamed(t) {
+			if len(e.Elts) > 0 {
+				panic(unsupported("non-empty literal of a dependency's struct type at " + ex.pos(e)))
+			}
+			return tv(ex.zeroTerm(t), t)
+		}
 		if ex.w.isRefStruct(t) {
 			named := namedOf(t)
 			r := ex.allocObj(st, named)
@@ -1018,7 +1043,7 @@ func (ex *Exec) convertTo(st *State, v *Val, to types.Type) *Val {
 		return v
 	}
 	ts := ex.w.sortOf(to)
-	if v.Fn != nil || v.Loc != nil {
+	if v.Fn != nil || v.Loc != nil || v.LocHeap != nil {
 		return v
 	}
 	if v.T.S.Kind == KInt && ts.Kind == KReal {
